@@ -391,7 +391,9 @@ def source_eval(pid, tres, outdir, stats):
     """the tie is broken but the fresh translation compiles: run IT on this run's cases
     against the implementation's observed output; returns (failing [(index, 1)], note)"""
     tie, tdir = SOURCE_TIES[pid], tres["dir"]
-    if not tie.get("eval") or not tres["compiles"]:
+    if not tie.get("eval"):
+        return [], "not evaluated (no evaluation glue for this property: the hand model and the correspondence decide)"
+    if not tres["compiles"]:
         return [], "not evaluated (the translation does not compile)"
     if tres["status"] == "identical":
         gen = os.path.join(tdir, tie["generated"])
